@@ -69,6 +69,12 @@ def gen_launch(ctx, P, maxn):
             base |= {rng.randint(0, maxn) for _ in range(ctx.scale(3, 12))}
             Ms = sorted(m for m in base if 0 <= m <= maxn)
         for M in Ms: add("block %d %d" % (N, M))
+    # block-aligned partitions Partition(N, M, brows, bcols): whole blocks per rank, square and non-square blocks (oracle only)
+    for k in range(ctx.scale(40, 500)):
+        br, bc = rng.choice([(1, 1), (2, 2), (1, 2), (2, 1), (2, 3), (3, 2), (1, 3), (3, 1), (4, 2)])
+        nb = rng.choice([1, P - 1, P, P + 1, 2 * P + 1, rng.randint(1, 14)]); nb = max(1, nb)
+        mb = rng.choice([0, 1, P - 1, P, P + 1, 2 * P + 1, nb, rng.randint(0, 14)]); mb = max(0, mb)
+        add("bblock %d %d %d %d" % (nb * br, mb * bc, br, bc))
     styles = ["rand", "rand", "rand", "first", "last", "alt", "sparse"]
     for k in range(ctx.scale(40, 600)):
         N = rng.choice([0, 1, P - 1, P, P + 1, rng.randint(0, maxn), rng.randint(0, maxn)]); N = max(0, N)
@@ -245,6 +251,20 @@ def run_launch(ctx, P, cases, seen_sigs):
                     if (R[r][3], R[r][5]) != (a[4 * r], b_[4 * r + 1]) or (a[4 * r] > 0 and R[r][2] != a[4 * r + 2]) or (b_[4 * r + 1] > 0 and R[r][4] != b_[4 * r + 3]):
                         sig("O", "product:blocks", "rank %d of the product partition has rows (first %d, size %d) cols (first %d, size %d); the left factor's rows are (%d, %d), the right factor's columns (%d, %d)"
                             % (r, R[r][2], R[r][3], R[r][4], R[r][5], a[4 * r + 2], a[4 * r], b_[4 * r + 3], b_[4 * r + 1]), line); break
+            continue
+        if op == "bblock":
+            N, M, br, bc = int(t[2]), int(t[3]), int(t[4]), int(t[5])
+            ctx.count("block_aligned"); 
+            if br != bc: ctx.count("block_aligned_nonsquare")
+            if N > 0 and M > 0 and P > 1: ctx.nontrivial.add("%d %s" % (P, line.split(" ", 1)[1]))
+            if any(k not in ri for k in ("R", "FC", "OWN")): sig("K", "bblock:missing", "implementation output missing: %s" % (list(ri),), line); continue
+            R = parse_ranks(ri["R"])
+            for s_, d in judge_partition("bblock", N, M, P, R, ri["FC"], ri["OWN"]): sig("O", s_, d, line)
+            if all(r is not None and len(r) == 8 for r in R):
+                for r in range(P):
+                    if R[r][2] % br or R[r][3] % br or (R[r][5] > 0 and R[r][4] % bc) or R[r][5] % bc:
+                        sig("O", "bblock:alignment", "rank %d: rows (first %d, size %d) / columns (first %d, size %d) are not whole %dx%d blocks"
+                            % (r, R[r][2], R[r][3], R[r][4], R[r][5], br, bc), line); break
             continue
         N, M = int(t[2]), int(t[3])
         if N < P: ctx.count("rows<P")
